@@ -40,6 +40,7 @@ type c18Resp struct {
 	cuts        []int    // segmentation of response+piggy
 	closeAfter  int      // close the connection after this many bytes (-1: never)
 	expectOK    bool
+	noEnd       bool // the head never ends: no blank line (and more than 64 KiB of header lines)
 	description string
 }
 
@@ -129,7 +130,9 @@ func c18Build(key string, rs *c18Resp) []byte {
 			b.WriteString(name + ": " + h[1] + "  \r\n")
 		}
 	}
-	b.WriteString("\r\n")
+	if !rs.noEnd {
+		b.WriteString("\r\n")
+	}
 	return b.Bytes()
 }
 
@@ -309,6 +312,27 @@ func c18Script(r *vf.Rand) *c18Resp {
 			rs.accept = "noncanonical-base64"
 			desc = "accept-with-padding-bits-changed"
 		}
+	case 10:
+		if r.Chance(1, 3) {
+			// a head that never ends: more than 64 KiB of header lines and no blank line. The handshake must fail (not
+			// buffer for ever), and the stream must be as good as new afterwards.
+			rs.noEnd = true
+			rs.extra = 2
+			// (the client's bound is on what it has buffered, which grows in steps: the head is made long enough that every
+			// growth policy has passed 64 KiB long before the server runs out of bytes and falls silent)
+			rs.extraVals = []string{string(asciiBytes(r, r.Range(80000, 100000))), string(asciiBytes(r, r.Range(70000, 90000)))}
+			rs.accept = "wrong"
+			desc = "head-far-over-64KiB-without-end"
+		}
+	}
+	if !rs.noEnd && r.Chance(1, 10) {
+		// a conforming but large head (cookies, tracing headers): 8-40 KiB
+		if rs.extra == 0 {
+			rs.extra = 1
+			rs.extraVals = []string{""}
+		}
+		rs.extraVals[0] = string(asciiBytes(r, r.Range(8000, 40000)))
+		desc += "+large-head"
 	}
 	rs.expectOK = strings.HasPrefix(rs.status, "HTTP/1.1 101") && strings.EqualFold(rs.upgrade, "websocket") && rs.accept == "ok"
 	if rs.expectOK {
@@ -320,6 +344,12 @@ func c18Script(r *vf.Rand) *c18Resp {
 				pl = append(pl, "\r\n\r\n"...)
 			}
 			rs.piggy = append(rs.piggy, wsMsg{Text: r.Bool(), Payload: pl})
+		}
+		if r.Chance(1, 8) {
+			// a server that starts talking at once: kilobytes of frames right behind the response head
+			for i := 0; i < r.Range(6, 14); i++ {
+				rs.piggy = append(rs.piggy, wsMsg{Text: r.Bool(), Payload: asciiBytes(r, r.Range(700, 1100))})
+			}
 		}
 		for i := 0; i < r.Intn(3); i++ {
 			rs.later = append(rs.later, wsMsg{Text: r.Bool(), Payload: asciiBytes(r, r.Intn(200))})
